@@ -34,9 +34,31 @@ def tol_for(cond):
     return None
 
 
-def solve(desc, rec, feed):
+def in_domain(m):
+    """the domain of the property, evaluated on the wires of THIS description as the program sees them: two wires that
+       are neither joined directly nor through a common neighbour stay at least two segment lengths (of the coarser
+       of the two) apart -- otherwise the inherited exact-kernel heuristic (exact kernel between pulses of connected
+       wires only) legitimately depends on the description"""
+    gs = list(m.geo)
+    conn = {(a.n, b.n): bool(a is b or a.is_connected(b)) for a in gs for b in gs}
+    for i, a in enumerate(gs):
+        for b in gs[i + 1:]:
+            if conn[(a.n, b.n)] or any(conn[(a.n, c.n)] and conn[(c.n, b.n)] for c in gs):
+                continue
+            seg = max(max(s_.seg_len for s_ in a.segments), max(s_.seg_len for s_ in b.segments))
+            dmin = min(D._seg_dist(np.array(sa.p1, float), np.array(sa.p2, float), np.array(sb.p1, float),
+                                   np.array(sb.p2, float)) for sa in a.segments for sb in b.segments)
+            if dmin < 2 * seg * (1 - 1e-9):
+                return False
+    return True
+
+
+def solve(desc, rec, feed, force_exact=False):
     maps, clashes = D.joint_maps(desc, rec)
     m = desc.build(LAM, F)
+    if force_exact:
+        # diagnosis only: the exact kernel between ALL pulses, whatever wires they belong to
+        m.pulses._matrix_geo_unconnected = np.zeros((len(m.pulses), len(m.pulses)), dtype=bool)
     if len(m.pulses) != len(rec['pulses']):
         return dict(err='pulse-count')
     v = maps[feed]
@@ -58,7 +80,7 @@ def solve(desc, rec, feed):
         e.append(np.array(m.e_field[0]))
         h.append(np.array(m.h_field[0]))
     return dict(z=z, phys=phys, gain=gain, e=np.array(e), h=np.array(h), cond=cond, clashes=clashes,
-                npulses=len(m.pulses))
+                npulses=len(m.pulses), in_domain=in_domain(m))
 
 
 def check_structure(args):
@@ -71,6 +93,7 @@ def check_structure(args):
         w0 = max(range(len(wires)), key=lambda w: wires[w][2])
         feed = (w0, 1)
         ref = None
+        ref_exact = None
         for lb in labels:
             d = descs[lb]
             r = solve(d, recs_by_label[lb], feed)
@@ -96,12 +119,34 @@ def check_structure(args):
             dh = np.abs(r['h'] - ref['h']).max() / np.abs(ref['h']).max()
             sel = (ref['gain'] > -100) & (r['gain'] > -100)
             dg = np.abs(r['gain'][sel] - ref['gain'][sel]).max(initial=0)
+            devs = (('feed-impedance', dz, tol), ('joint-currents', dc, tol), ('near-field-E', de, tol),
+                    ('near-field-H', dh, tol), ('far-field-gain-dB', dg, 10 * math.log10(1 + 2 * tol) + 1e-6))
+            if not (r['in_domain'] and ref['in_domain']):
+                # outside the domain of the property (e.g. a split right next to a junction of three wires puts a
+                # one-segment piece between wires that were neighbours): compared, but a deviation is no violation
+                if any(dv > tl for _, dv, tl in devs):
+                    out['outside'] = out.get('outside', 0) + 1
+                    continue
             out['maxdev'] = max(out['maxdev'], dz, dc, de, dh)
-            for nm, dv, tl in (('feed-impedance', dz, tol), ('joint-currents', dc, tol), ('near-field-E', de, tol),
-                               ('near-field-H', dh, tol), ('far-field-gain-dB', dg, 10 * math.log10(1 + 2 * tol) + 1e-6)):
+            cause = None
+            if any(dv > tl for _, dv, tl in devs):
+                # is the deviation explained by the inherited exact-kernel heuristic (exact kernel only between pulses
+                # whose OWNER wires are connected -- ownership depends on the description)?  Both descriptions are
+                # solved again with the exact kernel between all pulses: if they agree then, that is the cause.
+                if ref_exact is None:
+                    ref_exact = solve(descs[ref_label], recs_by_label[ref_label], feed, force_exact=True)
+                r2 = solve(d, recs_by_label[lb], feed, force_exact=True)
+                sc2 = max(abs(x) for x in ref_exact['phys'].values())
+                d2 = max(abs(r2['z'] - ref_exact['z']) / abs(ref_exact['z']),
+                         max(abs(r2['phys'][k] - ref_exact['phys'][k]) for k in ref_exact['phys'] if k in r2['phys']) / sc2,
+                         np.abs(r2['e'] - ref_exact['e']).max() / np.abs(ref_exact['e']).max(),
+                         np.abs(r2['h'] - ref_exact['h']).max() / np.abs(ref_exact['h']).max())
+                if d2 <= tol:
+                    cause = 'exact-kernel-heuristic-depends-on-description'
+            for nm, dv, tl in devs:
                 if dv > tl:
                     out['mism'].append(dict(what=nm, description=lb, reference=ref_label, dev=float(dv),
-                                            kind=kind, structure=sname))
+                                            kind=kind, structure=sname, cause=cause))
         # mirror symmetry: structures symmetric under y -> -y / x -> -x are listed explicitly
     except Exception as e:      # noqa
         import traceback
@@ -178,8 +223,10 @@ def run(tier):
     chk = C.Check(PID, tier, 'exploration')
     chk.assumptions = [
         'TLC 1.8 on spec/TopologyOn.tla: pulse table and J-line coefficient vectors of every description, all Topology invariants (CountFormula, KCL, JunctionEndIsSum, ...) checked on each',
-        'structures and their coordinates are the fixed list of harness/describe.py (inside the stated domain: junction angles >= 40 degrees, non-adjacent wires >= 2 segments apart, at most one wire per ground point); descriptions are enumerated exhaustively per structure',
+        'structures: the fixed list of harness/describe.py plus seeded random trees of 2 .. 4 wires (3 quick, 40 thorough; inside the stated domain: junction angles >= 40 degrees, non-adjacent wires >= 2 segments apart, at most one wire per ground point); descriptions are enumerated exhaustively per structure',
         'numeric comparison of implementation outputs with the tolerance of the property (5e-4, 5e-7 * cond above cond = 1e3, skipped above 1e5)']
+    # besides the fixed list: seeded random trees of 2 .. 4 wires inside the domain of the property
+    D.add_random_structures(C.seed(), 3 if tier == 'quick' else 40)
     names = sorted(D.STRUCTURES)
     jobs = []
     for sname in names:
@@ -199,11 +246,13 @@ def run(tier):
             chk.nontrivial.add(sname + '/' + lb)
         if o['skipped']:
             chk.skip('condition number above 1e5', o['skipped'])
+        if o.get('outside'):
+            chk.skip('description outside the domain of the property deviates (exact-kernel heuristic)', o['outside'])
         if o['exc']:
             chk.violation(dict(kind='exception', structure=sname, exc=o['exc'].split('(')[0]), dict(structure=sname, exc=o['exc']))
         for mm in o['mism']:
-            chk.violation(dict(kind=mm['what'], structure=sname, description_kind=mm.get('kind')),
-                          dict(structure=sname, info=mm))
+            chk.violation(dict(kind=mm['what'], structure=sname, description_kind=mm.get('kind'), cause=mm.get('cause')),
+                          dict(structure=sname, info=mm, definition=D.STRUCTURES[sname]))
     for b in symmetric_dipole_check() + tapered_vee_check():
         chk.violation(dict(kind=b['what']), b)
     chk.case('symmetric-V', True, n=8)
